@@ -25,7 +25,8 @@ def parsePI (j : Json) : PI :=
 def parseVal (j : Json) : Val :=
   { t := getStr j "t", cc := getStr j "cc", ch := getNats j "ch", schema := getInt j "schema",
     content := (getArr j "content").map parseMT, headers := getNats j "headers", links := getNats j "links",
-    items := getNats j "items", pex := getNats j "pex" }
+    items := getNats j "items", pex := getNats j "pex",
+    dmap := (getArr j "dmap").map fun e => (getL e "t", getNat e "c") }
 
 def kinds : List String :=
   ["schemas", "parameters", "headers", "requestBodies", "responses", "securitySchemes", "examples", "links", "callbacks"]
@@ -54,6 +55,8 @@ def handle (j : Json) : Json :=
       (if SelfRefComponent h s then ["SelfRefComponent"] else []) ++
       (if StaleInternalRef h s then ["StaleInternalRef"] else []) ++
       (if UnwalkedExample h s then ["UnwalkedExample"] else []) ++
+      (if DiscriminatorMapping h s then ["DiscriminatorMapping"] else []) ++
+      (if InlinedCycle h s then ["InlinedCycle"] else []) ++
       (if Unresolved h then ["Unresolved"] else []) ++
       (if PathItemLeft h s then ["PathItemLeft"] else []) ++
       (if EmptyName h s then ["EmptyName"] else []) ++
@@ -63,7 +66,8 @@ def handle (j : Json) : Json :=
     jobj [
       ("model", jobj [("outcome", Json.str "done"), ("refs", strsOf s.refs.toList), ("pirefs", strsOf s.pirefs.toList),
                       ("comps", jobj (kinds.map fun k => (k, strsOf ((compsOf s k.toList).map (·.1))))),
-                      ("specok", Json.bool ok), ("ambiguous", Json.bool s.ambiguous)]),
+                      ("specok", Json.bool ok), ("ambiguous", Json.bool s.ambiguous),
+                      ("cyclic", Json.bool (InlinedCycle h s))]),
       ("spec", jobj [("ok", Json.bool true)]),
       ("excl", jstrs excl),
       ("branches", jstrs (s.flags ++ (if ok then [] else ["spec.fails"])))]
